@@ -432,7 +432,7 @@ def special_shapes(cls: str, meth: str) -> Iterator[dict]:
             for prm in numeric:
                 args = args.replace(f"{prm}={full['binding'][prm]}", f"{prm}=pot8.read()")
             yield dict(full, args=args, binding={k: v for k, v in full["binding"].items() if k not in numeric}, same_call_params=numeric, pre_lines=['pot8 = Potentiometer("A3")'], group=full["group"] + ":same-call")
-        for param, val in []:
+        for param, val in sh["binding"].items():
             if val.startswith("["):
                 for post in (["seqv.append(1)"], ["seqv.remove(1)"], ["seqv.append(0)", "seqv.append(1)"]):
                     args = sh["args"].replace(val, "seqv", 1)
